@@ -3,6 +3,11 @@
 package calcium
 
 import (
+	"sync/atomic"
+
+	"github.com/panjf2000/ants/v2"
+
+	"github.com/projecteru2/core/log"
 	"github.com/projecteru2/core/resource"
 	"github.com/projecteru2/core/store"
 	"github.com/projecteru2/core/wal"
@@ -27,7 +32,28 @@ func (c *Calcium) VerifSetDeps(s store.Store, r resource.Manager, w wal.WAL) {
 	}
 }
 
-// VerifPoolRunning reports the number of pool workers currently running a task.
+// VerifPoolRunning reports the number of pool workers (busy or idle) of the task pool.
 func (c *Calcium) VerifPoolRunning() int {
 	return c.pool.Running()
+}
+
+// VerifCountTasks replaces the task pool by an identically configured one (same capacity,
+// non-blocking, same panic handling as utils.NewPool) that also counts the tasks currently
+// executing, and returns that counter. ants only reports live workers, idle ones included,
+// which is useless for detecting quiescence.
+func (c *Calcium) VerifCountTasks() *atomic.Int64 {
+	busy := &atomic.Int64{}
+	pool, err := ants.NewPoolWithFunc(c.pool.Cap(), func(i any) {
+		busy.Add(1)
+		defer busy.Add(-1)
+		defer log.SentryDefer()
+		f, _ := i.(func())
+		f()
+	}, ants.WithNonblocking(true))
+	if err != nil {
+		panic(err)
+	}
+	c.pool.Release()
+	c.pool = pool
+	return busy
 }
